@@ -121,14 +121,21 @@ def indent(elem: ET.Element, level: int = 0) -> None:
 
 
 # FIXME - this doesn't work quite right
-def tostring_unclosed_elements(elem: ET.Element) -> bytes:
+def tostring_unclosed_elements(elem: ET.Element, close_empty: bool = False) -> bytes:
     """
     SGML-style string representation of xml.etree.ElementTree, without
     closing tags.
 
     Drop-in replacement for xml.etree.ElementTree.tostring().
+
+    Only data-bearing elements may omit the end tag.  Pass ``close_empty=True``
+    to write an end tag for aggregates that have no children (and no data),
+    so that a parser doesn't take what follows to be nested inside them.
     """
-    if len(elem) == 0:
+    if len(elem) == 0 and close_empty and not elem.text:
+        text = "<{0}></{0}>{1}".format(elem.tag, elem.tail or "")
+        output = bytes(text, "utf_8")
+    elif len(elem) == 0:
         # Escape '&' '<' '>' in data, as ET.tostring() does for closed elements
         data = saxutils.escape(elem.text or "")
         text = "<{}>{}{}".format(elem.tag, data, elem.tail or "")
@@ -136,7 +143,7 @@ def tostring_unclosed_elements(elem: ET.Element) -> bytes:
     else:
         output = bytes("<{}>{}".format(elem.tag, elem.tail or ""), "utf_8")
         for child in elem:
-            output += tostring_unclosed_elements(child)
+            output += tostring_unclosed_elements(child, close_empty=close_empty)
         output += bytes("</{}>{}".format(elem.tag, elem.tail or ""), "utf_8")
     return output
 
